@@ -574,4 +574,295 @@ theorem sxInv_updateSMO (s : McSx Rat) (h : SxInv s) (v w : Nat) (hv : v < s.b.a
       · rw [hb, updateVarsum_b, updateVarsum_b]; rfl
       · rw [hb, updateVarsum_b, updateVarsum_b]; rfl
 
+
+/-! ### deactivateVariable (with the automatic deactivateExample) -/
+
+/-- the dual variable `(example at position e, p)` keeps its value under `deactivateVariable` (the variables are
+renumbered, the tables follow) -/
+theorem deactVar_alpha_var (b : McBox Rat) (ht : TablesInv b) (v : Nat) (hv : v < b.activeVar) (e p : Nat)
+    (he : e < b.n) (hp : p < b.P) :
+    (b.deactivateVariable v).alpha (((b.deactivateVariable v).ex e).var p) = b.alpha ((b.ex e).var p) := by
+  have ht1 := tablesInv_deactivateVariable b ht v hv
+  have hvN : v < b.P * b.n := lt_of_lt_of_le hv ht.aV_le
+  have hjN : b.activeVar - 1 < b.P * b.n := by have := ht.aV_le; omega
+  have hx : ((b.deactivateVariable v).ex e).var p < b.P * b.n := ht1.var_lt e he p hp
+  have hi := ht1.var_i e he p hp
+  have hpp := ht1.var_p e he p hp
+  have hs := deactVar_vars b v (((b.deactivateVariable v).ex e).var p)
+  rw [swp_eq_comp b.vars] at hs
+  rw [hs.1] at hi
+  rw [hs.2] at hpp
+  have hτ := swp_id_lt v (b.activeVar - 1) _ _ hvN hjN hx
+  have hvar := ht.v_var _ hτ
+  rw [hi, hpp] at hvar
+  show swp b.alpha v (b.activeVar - 1) _ = _
+  rw [swp_eq_comp b.alpha, hvar]
+
+theorem simplexInv_deactVar (s : McSx Rat) (ht : TablesInv s.b) (h : SimplexInv s) (v : Nat)
+    (hv : v < s.b.activeVar) : SimplexInv { s with b := s.b.deactivateVariable v } := by
+  constructor
+  · intro x hx
+    have hle := ht.aV_le
+    change x < s.b.P * s.b.n at hx
+    change 0 ≤ swp s.b.alpha v (s.b.activeVar - 1) x
+    unfold swp
+    split_ifs
+    · exact h.nonneg _ (by omega)
+    · exact h.nonneg _ (by omega)
+    · exact h.nonneg x hx
+  · intro e he
+    change e < s.b.n at he
+    have hg := h.good e he
+    have hidx : ((s.b.deactivateVariable v).ex e).index = (s.b.ex e).index := ((deactVar_ex s.b v) e).2
+    have hasum : ({ s with b := s.b.deactivateVariable v } : McSx Rat).asum e = s.asum e := by
+      unfold McSx.asum
+      refine sum_congr rfl fun p hp => ?_
+      exact deactVar_alpha_var s.b ht v hv e p he (mem_range.mp hp)
+    unfold Good McSx.vsum at *
+    rw [hasum]
+    show 0 ≤ s.varsum ((s.b.deactivateVariable v).ex e).index ∧ s.varsum ((s.b.deactivateVariable v).ex e).index ≤ s.b.C ∧
+      s.asum e - (1.e-14 : Rat) ≤ s.varsum ((s.b.deactivateVariable v).ex e).index
+    rw [hidx]
+    exact hg
+
+theorem deactEx_alpha (b : McBox Rat) (e : Nat) : (b.deactivateExample e).alpha = b.alpha := by
+  unfold McBox.deactivateExample; dsimp only; split_ifs <;> rfl
+
+theorem simplexInv_deactEx (s : McSx Rat) (ht : TablesInv s.b) (h : SimplexInv s) (e : Nat)
+    (he : e < s.b.activeEx) : SimplexInv { s with b := s.b.deactivateExample e } := by
+  by_cases hne : e = s.b.activeEx - 1
+  · have : s.b.deactivateExample e = { s.b with activeEx := s.b.activeEx - 1 } := by
+      unfold McBox.deactivateExample; dsimp only; rw [if_pos hne]
+    rw [this]
+    exact h.congr rfl (fun _ => rfl) (fun _ => rfl) rfl rfl rfl rfl
+  · obtain ⟨hP, hn, hex, _, _, _, _⟩ := deactEx_spec s.b ht e he hne
+    have hC : (s.b.deactivateExample e).C = s.b.C := (sameStatic_deactivateExample s.b e).2.2.2.1
+    have hen : e < s.b.n := lt_of_lt_of_le he ht.aE_le
+    have hjn : s.b.activeEx - 1 < s.b.n := by have := ht.aE_le; omega
+    constructor
+    · show ∀ v < (s.b.deactivateExample e).P * (s.b.deactivateExample e).n, 0 ≤ (s.b.deactivateExample e).alpha v
+      rw [hP, hn, deactEx_alpha]; exact h.nonneg
+    · show ∀ x < (s.b.deactivateExample e).n, Good { s with b := s.b.deactivateExample e } x
+      rw [hn]
+      intro x hx
+      have hg := h.good (tr e (s.b.activeEx - 1) x) (tr_lt hen hjn hx)
+      unfold Good McSx.vsum McSx.asum at *
+      show 0 ≤ s.varsum ((s.b.deactivateExample e).ex x).index ∧
+        s.varsum ((s.b.deactivateExample e).ex x).index ≤ (s.b.deactivateExample e).C ∧
+        ∑ p ∈ range (s.b.deactivateExample e).P, (s.b.deactivateExample e).alpha (((s.b.deactivateExample e).ex x).var p)
+          - (1.e-14 : Rat) ≤ s.varsum ((s.b.deactivateExample e).ex x).index
+      rw [hex, hP, hC, deactEx_alpha, swp_eq_tr]
+      exact hg
+
+theorem sxInv_deactivateVariable (s : McSx Rat) (h : SxInv s) (v : Nat) (hv : v < s.b.activeVar) :
+    SxInv (s.deactivateVariable v) := by
+  have ht1 := tablesInv_deactivateVariable s.b h.tables v hv
+  have hg1 := gradInv_deactivateVariable s.b h.tables h.grad v hv
+  have hx1 := simplexInv_deactVar s h.tables h.simplex v hv
+  have hs1 := sameStatic_deactivateVariable s.b v
+  have hev : (s.b.vars v).i < s.b.activeEx := active_var_active_ex s.b h.tables v hv
+  unfold McSx.deactivateVariable
+  dsimp only
+  split_ifs with h0
+  · have h0' : ((s.b.deactivateVariable v).ex (s.b.vars v).i).active = 0 := by simpa using h0
+    have he1 : (s.b.vars v).i < (s.b.deactivateVariable v).activeEx := hev
+    exact h.of_parts (hs1.trans (sameStatic_deactivateExample _ _))
+      (tablesInv_deactivateExample _ ht1 _ he1 h0') (gradInv_deactivateExample _ ht1 hg1 _ he1 h0')
+      (simplexInv_deactEx { s with b := s.b.deactivateVariable v } ht1 hx1 _ he1)
+  · exact h.of_parts hs1 ht1 hg1 hx1
+
+
+/-! ### shrink -/
+
+theorem setEx_active_same (ex : Nat → Ex) (e : Nat) (F : Ex → Ex) (hF : ∀ r, (F r).active = r.active) (k : Nat) :
+    (McBox.setEx ex e F k).active = (ex k).active := by
+  unfold McBox.setEx
+  split_ifs with h
+  · rw [hF, h]
+  · rfl
+
+theorem deactVar_active_self (b : McBox Rat) (v : Nat) :
+    ((b.deactivateVariable v).ex (b.vars v).i).active = (b.ex (b.vars v).i).active - 1 := by
+  unfold McBox.deactivateVariable
+  dsimp only
+  rw [setEx_var_active, setEx_avar_active, setEx_var_active, setEx_avar_active]
+  unfold McBox.setEx
+  rw [if_pos rfl]
+
+theorem sxInv_n (s s' : McSx Rat) (h : SameStatic s.b s'.b) : s'.b.n = s.b.n := h.2.2.1
+
+theorem sameStatic_sx_deactivateVariable (s : McSx Rat) (v : Nat) : SameStatic s.b (s.deactivateVariable v).b := by
+  unfold McSx.deactivateVariable
+  dsimp only
+  split_ifs
+  · exact (sameStatic_deactivateVariable s.b v).trans (sameStatic_deactivateExample _ _)
+  · exact sameStatic_deactivateVariable s.b v
+
+/-- one `deactivateVariable` of the variable at position `p` of the `avar` list of slot `e` -/
+theorem sx_deact_slot (s : McSx Rat) (h : SxInv s) (e p : Nat) (he : e < s.b.n) (hp : p < (s.b.ex e).active) :
+    SxInv (s.deactivateVariable ((s.b.ex e).avar p)) ∧
+    (1 < (s.b.ex e).active →
+      (s.deactivateVariable ((s.b.ex e).avar p)).b = s.b.deactivateVariable ((s.b.ex e).avar p) ∧
+      ((s.deactivateVariable ((s.b.ex e).avar p)).b.ex e).active = (s.b.ex e).active - 1) := by
+  have hpP : p < s.b.P := lt_of_lt_of_le hp (h.tables.active_le e he)
+  have hv : (s.b.ex e).avar p < s.b.activeVar := (h.tables.active_iff e he p hpP).mp hp
+  have hi : (s.b.vars ((s.b.ex e).avar p)).i = e := h.tables.avar_i e he p hpP
+  refine ⟨sxInv_deactivateVariable s h _ hv, fun h1 => ?_⟩
+  have hact := deactVar_active_self s.b ((s.b.ex e).avar p)
+  rw [hi] at hact
+  have hne : ¬ (((s.b.deactivateVariable ((s.b.ex e).avar p)).ex e).active == 0) = true := by
+    rw [hact]; simp; omega
+  have hb : (s.deactivateVariable ((s.b.ex e).avar p)).b = s.b.deactivateVariable ((s.b.ex e).avar p) := by
+    unfold McSx.deactivateVariable
+    dsimp only
+    rw [hi, if_neg hne]
+  exact ⟨hb, by rw [hb, hact]⟩
+
+/-- case 2 of `shrink`: all active variables of the slot are deactivated, last first -/
+theorem sxInv_shrinkCase2 (s : McSx Rat) (h : SxInv s) (e : Nat) (he : e < s.b.n) : SxInv (s.shrinkCase2 e) := by
+  unfold McSx.shrinkCase2
+  dsimp only
+  generalize hpc : (s.b.ex e).active = pc
+  suffices H : ∀ k, k ≤ pc →
+      let t := (List.range k).foldl (fun (s : McSx Rat) k => s.deactivateVariable ((s.b.ex e).avar (pc - 1 - k))) s
+      SxInv t ∧ t.b.n = s.b.n ∧ (k < pc → pc ≤ (t.b.ex e).active + k) from (H pc (le_refl _)).1
+  intro k
+  induction k with
+  | zero => intro _; exact ⟨h, rfl, fun _ => by simp [hpc]⟩
+  | succ k ih =>
+    intro hk
+    obtain ⟨h1, hn1, h2⟩ := ih (by omega)
+    have h2' := h2 (by omega)
+    rw [List.range_succ, List.foldl_append]
+    simp only [List.foldl_cons, List.foldl_nil]
+    set t := (List.range k).foldl (fun (s : McSx Rat) k => s.deactivateVariable ((s.b.ex e).avar (pc - 1 - k))) s
+    have het : e < t.b.n := by rw [hn1]; exact he
+    obtain ⟨r1, r2⟩ := sx_deact_slot t h1 e (pc - 1 - k) het (by omega)
+    refine ⟨r1, ?_, fun hk1 => ?_⟩
+    · rw [(sameStatic_sx_deactivateVariable t _).2.2.1, hn1]
+    · obtain ⟨_, hact⟩ := r2 (by omega)
+      rw [hact]; omega
+
+/-- loop body of `getSimplexMVP` -/
+def mvpStep (s : McSx Rat) (e : Nat) (st : Rat × Nat × Rat × Nat) (p : Nat) : Rat × Nat × Rat × Nat :=
+  let v := (s.b.ex e).avar p
+  let a := s.b.alpha v
+  let g := s.b.grad v
+  let st : Rat × Nat × Rat × Nat := if g > st.1 then (g, v, st.2.2.1, st.2.2.2) else st
+  if a > (0.0 : Rat) ∧ g < st.2.2.1 then (st.1, st.2.1, g, v) else st
+
+theorem simplexMVP_eq (s : McSx Rat) (e : Nat) :
+    s.simplexMVP e = (List.range (s.b.ex e).active).foldl (mvpStep s e)
+      (-(1.e100 : Rat), (s.b.ex e).avar 0, (1.e100 : Rat), (s.b.ex e).avar 0) := rfl
+
+theorem mvpStep_up (s : McSx Rat) (e : Nat) (st : Rat × Nat × Rat × Nat) (p : Nat) :
+    st.1 ≤ (mvpStep s e st p).1 ∧ s.b.grad ((s.b.ex e).avar p) ≤ (mvpStep s e st p).1 := by
+  unfold mvpStep
+  dsimp only
+  split_ifs with h1 h2 h3 <;> (try dsimp only) <;> constructor <;> first | exact le_refl _ | exact le_of_lt h1 | exact not_lt.mp h1
+
+/-- `up` of `getSimplexMVP` dominates the gradient of every active variable of the example -/
+theorem mvp_up_ge (s : McSx Rat) (e : Nat) :
+    ∀ b < (s.b.ex e).active, s.b.grad ((s.b.ex e).avar b) ≤ (s.simplexMVP e).1 := by
+  rw [simplexMVP_eq]
+  generalize (s.b.ex e).active = n
+  generalize (-(1.e100 : Rat), (s.b.ex e).avar 0, (1.e100 : Rat), (s.b.ex e).avar 0) = init
+  induction n with
+  | zero => intro b hb; omega
+  | succ n ih =>
+    intro b hb
+    rw [List.range_succ, List.foldl_append, List.foldl_cons, List.foldl_nil]
+    have hs := mvpStep_up s e ((List.range n).foldl (mvpStep s e) init) n
+    by_cases hbn : b = n
+    · subst hbn; exact hs.2
+    · exact le_trans (ih b (by omega)) hs.1
+
+/-- the gradients of the active variables of a slot after deactivating one of its variables are among the
+gradients of its active variables before -/
+theorem deactVar_grad_slot (b : McBox Rat) (ht : TablesInv b) (v : Nat) (hv : v < b.activeVar) (e : Nat)
+    (he : e < b.n) (b' : Nat) (hb' : b' < ((b.deactivateVariable v).ex e).active) :
+    ∃ b'' < (b.ex e).active,
+      (b.deactivateVariable v).grad (((b.deactivateVariable v).ex e).avar b') = b.grad ((b.ex e).avar b'') := by
+  have ht1 := tablesInv_deactivateVariable b ht v hv
+  have hvN : v < b.P * b.n := lt_of_lt_of_le hv ht.aV_le
+  have hle := ht.aV_le
+  have hjN : b.activeVar - 1 < b.P * b.n := by omega
+  have hbP : b' < b.P := lt_of_lt_of_le hb' (ht1.active_le e he)
+  have hxa : ((b.deactivateVariable v).ex e).avar b' < b.activeVar - 1 := (ht1.active_iff e he b' hbP).mp hb'
+  have hxN : ((b.deactivateVariable v).ex e).avar b' < b.P * b.n := ht1.avar_lt e he b' hbP
+  have hi := ht1.avar_i e he b' hbP
+  have hs := deactVar_vars b v (((b.deactivateVariable v).ex e).avar b')
+  rw [swp_eq_comp b.vars] at hs
+  rw [hs.1] at hi
+  have hτN := swp_id_lt v (b.activeVar - 1) _ _ hvN hjN hxN
+  have hτa : swp id v (b.activeVar - 1) (((b.deactivateVariable v).ex e).avar b') < b.activeVar := by
+    unfold swp; simp only [id]; split_ifs <;> omega
+  have hav := ht.v_avar _ hτN
+  rw [hi] at hav
+  refine ⟨(b.vars (swp id v (b.activeVar - 1) (((b.deactivateVariable v).ex e).avar b'))).index, ?_, ?_⟩
+  · refine (ht.active_iff e he _ (ht.v_index_lt _ hτN)).mpr ?_
+    rw [hav]; exact hτa
+  · show swp b.grad v (b.activeVar - 1) _ = _
+    rw [swp_eq_comp b.grad, hav]
+
+/-- case 1 of `shrink` -/
+theorem sxInv_shrinkCase1 (s : McSx Rat) (h : SxInv s) (e : Nat) (he : e < s.b.n) (down : Rat) :
+    SxInv (s.shrinkCase1 e (s.simplexMVP e).1 down) := by
+  unfold McSx.shrinkCase1
+  dsimp only
+  generalize hup : (s.simplexMVP e).1 = up
+  have hJ0 : ∀ b < (s.b.ex e).active, s.b.grad ((s.b.ex e).avar b) ≤ up := hup ▸ mvp_up_ge s e
+  generalize hpc : (s.b.ex e).active = pc at *
+  suffices H : ∀ k, k ≤ pc →
+      let t := (List.range k).foldl (fun (st : McSx Rat × Bool) k =>
+        if st.2 then st else
+        let s := st.1
+        let p := pc - 1 - k
+        let v := (s.b.ex e).avar p
+        let a := s.b.alpha v
+        let g := s.b.grad v
+        if a == (0.0 : Rat) ∧ g - down < (0.0 : Rat) then (s.deactivateVariable v, false)
+        else if a == s.b.C ∧ up - g < (0.0 : Rat) then
+          let q0 := (s.b.ex e).active
+          ((List.range (q0 + 1)).foldl (fun (s : McSx Rat) j => s.deactivateVariable ((s.b.ex e).avar (q0 - j))) s, true)
+        else (s, false)) (s, false)
+      SxInv t.1 ∧ t.2 = false ∧ t.1.b.n = s.b.n ∧
+        (k < pc → pc ≤ (t.1.b.ex e).active + k ∧
+          ∀ b < (t.1.b.ex e).active, t.1.b.grad ((t.1.b.ex e).avar b) ≤ up) from (H pc (le_refl _)).1
+  intro k
+  induction k with
+  | zero => intro _; exact ⟨h, rfl, rfl, fun _ => ⟨by simp [hpc], hpc ▸ hJ0⟩⟩
+  | succ k ih =>
+    intro hk
+    obtain ⟨h1, hf, hn1, h2⟩ := ih (by omega)
+    obtain ⟨h2a, h2b⟩ := h2 (by omega)
+    rw [List.range_succ, List.foldl_append]
+    simp only [List.foldl_cons, List.foldl_nil]
+    generalize (List.range k).foldl _ (s, false) = t at *
+    obtain ⟨t1, t2⟩ := t
+    simp only at h1 hf hn1 h2a h2b
+    subst hf
+    simp only [Bool.false_eq_true, if_false]
+    have het : e < t1.b.n := by rw [hn1]; exact he
+    have hp : pc - 1 - k < (t1.b.ex e).active := by omega
+    have hg := h2b _ hp
+    split_ifs with c1 c2
+    · -- the variable is deactivated
+      obtain ⟨r1, r2⟩ := sx_deact_slot t1 h1 e (pc - 1 - k) het hp
+      refine ⟨r1, rfl, by rw [(sameStatic_sx_deactivateVariable t1 _).2.2.1, hn1], fun hk1 => ?_⟩
+      obtain ⟨hb, hact⟩ := r2 (by omega)
+      refine ⟨by rw [hact]; omega, ?_⟩
+      rw [hb]
+      intro b' hb'
+      have hpP : pc - 1 - k < t1.b.P := lt_of_lt_of_le hp (h1.tables.active_le e het)
+      have hv : (t1.b.ex e).avar (pc - 1 - k) < t1.b.activeVar := (h1.tables.active_iff e het _ hpP).mp hp
+      obtain ⟨b'', hb'', heq⟩ := deactVar_grad_slot t1.b h1.tables _ hv e het b' hb'
+      rw [heq]; exact h2b b'' hb''
+    · -- unreachable: `up` dominates the gradient of every active variable
+      exfalso
+      have := c2.2
+      rw [z0] at this
+      linarith
+    · exact ⟨h1, rfl, hn1, fun hk1 => ⟨by omega, h2b⟩⟩
+
 end SharkVerif.Mc
